@@ -40,9 +40,15 @@ type FuncContract struct {
 	Line     int
 }
 
+type LemmaPat struct {
+	Fn     string
+	Params []string
+}
+
 type Lemma struct {
 	Fn     string
 	Params []string
+	Pats   []LemmaPat
 	Label  string
 	Body   string // contract expression over Params
 	File   string
@@ -59,7 +65,9 @@ type Contracts struct {
 
 var clauseKinds = map[string]bool{"requires": true, "ensures": true, "invariant": true, "returns": true,
 	"fswrite": true, "assume": true, "assert": true, "params": true, "pure": true, "replay": true, "sweep": true,
-	"decreases": true, "opt": true, "frame": true, "impure": true, "guide": true, "at-call": true, "ghost": true, "sets": true, "havocs": true, "fsread": true}
+	"decreases": true, "opt": true, "frame": true, "impure": true, "guide": true, "at-call": true, "ghost": true, "sets": true, "slice-invariant": true, "havocs": true, "fsread": true}
+
+var lemmaPatRe = regexp.MustCompile(`^([A-Za-z_][A-Za-z0-9_.]*)\(([^)]*)\)\s*`)
 
 var propRe = regexp.MustCompile(`^C[0-9]{2,3}$`)
 
@@ -153,19 +161,35 @@ func (cs *Contracts) parseContractFile(file string, repo bool, pkgPath string) e
 			last = nil
 		case word == "lemma":
 			cur = nil
-			// lemma F(x, y) label: body
-			m := regexp.MustCompile(`^([A-Za-z_][A-Za-z0-9_.]*)\(([^)]*)\)\s*(.*)$`).FindStringSubmatch(rest)
-			if m == nil {
+			// lemma F(x, y) [& G(_, r)] label: body
+			var pats []LemmaPat
+			hdr := rest
+			for {
+				m := lemmaPatRe.FindStringSubmatch(hdr)
+				if m == nil {
+					break
+				}
+				var ps []string
+				for _, x := range strings.Split(m[2], ",") {
+					if x = strings.TrimSpace(x); x != "" {
+						ps = append(ps, x)
+					}
+				}
+				pats = append(pats, LemmaPat{Fn: m[1], Params: ps})
+				hdr = strings.TrimSpace(hdr[len(m[0]):])
+				if strings.HasPrefix(hdr, "&") {
+					hdr = strings.TrimSpace(hdr[1:])
+					continue
+				}
+				break
+			}
+			if len(pats) == 0 {
 				return fmt.Errorf("%s:%d: bad lemma header", file, ln)
 			}
-			var ps []string
-			for _, x := range strings.Split(m[2], ",") {
-				if x = strings.TrimSpace(x); x != "" {
-					ps = append(ps, x)
-				}
-			}
-			label, body := splitLabel(m[3])
-			curLemma = &Lemma{Fn: m[1], Params: ps, Label: label, Body: body, File: file, Line: ln}
+			label, body := splitLabel(hdr)
+			m := []string{"", pats[0].Fn}
+			ps := pats[0].Params
+			curLemma = &Lemma{Fn: m[1], Params: ps, Pats: pats, Label: label, Body: body, File: file, Line: ln}
 			cs.Lemmas = append(cs.Lemmas, curLemma)
 			last = &curLemma.Body
 		case word == "closed":
@@ -227,6 +251,15 @@ func (cs *Contracts) parseContractFile(file string, repo bool, pkgPath string) e
 						return fmt.Errorf("%s:%d: invariant needs loop ordinal: %v", file, ln, err)
 					}
 					c.Loop = n
+					rest = strings.TrimSpace(rest[i+1:])
+				}
+				if word == "slice-invariant" {
+					// slice-invariant VAR label: expr over _e
+					i := strings.IndexAny(rest, " \t")
+					if i < 0 {
+						return fmt.Errorf("%s:%d: slice-invariant needs a variable", file, ln)
+					}
+					c.Callee = rest[:i]
 					rest = strings.TrimSpace(rest[i+1:])
 				}
 				if word == "at-call" {
